@@ -21,7 +21,9 @@ LEVEL_TEXT = ("Theorems in coq/Props/C16.v about the executable model coq/Xform/
               "For the tree as pinned the same holds on the domain without removals / negative indices / '-' before "
               "further segments (C16_focus_partial); the full statement is refuted by seven witnesses "
               "(C16_*_refuted), each a listed known finding.  WalkTransforming: model of walkTransforming for a selector "
-              "fragment, identity law on link-free trees proved, link inlining refuted; otherwise correspondence only.")
+              "fragment (with switches for the selector behaviours before/after b8b93dd, 873f3b3, 87fc183, set from a probe "
+              "record), identity law on link-free trees proved for every switch setting, link inlining refuted; otherwise "
+              "correspondence only.")
 LEVEL_NOTE = ("Trusted: Coq kernel, extraction, the Go harness (graph generator, dumper, error classifier) and the OCaml "
               "driver. basicnode builders, PathSegment/strconv.ParseInt, the dag-cbor round trip (= key sorting) and "
               "memstore (first write wins) are modelled by hand and tied by the differential run only. The link of a "
